@@ -28,11 +28,22 @@ def start(ctx, profiles=("release",)):
     corpus(ctx)
 
 
+def corpus_lines(pid, ops=None):
+    p = os.path.join(run.VERIF, "corpus", pid + ".txt")
+    if not os.path.exists(p):
+        return []
+    lines = [l.strip() for l in open(p) if l.strip() and not l.startswith("#")]
+    return [l for l in lines if ops is None or l.split()[0] in ops]
+
+
+SEARCH_OPS = {"const", "fn", "pow", "powi", "frac", "disp", "parse"}   # judged by a search oracle: added to the property's own stream
+
+
 def corpus(ctx):
     """minimised past disagreements / finding witnesses: always run first"""
     p = os.path.join(run.VERIF, "corpus", ctx.pid + ".txt")
     if os.path.exists(p):
-        lines = [l.strip() for l in open(p) if l.strip() and not l.startswith("#")]
+        lines = [l for l in corpus_lines(ctx.pid) if l.split()[0] not in SEARCH_OPS or ctx.pid == "C19"]
         eq = [l for l in lines if not l.split()[0] in OK_OPS]
         ok = [l for l in lines if l.split()[0] in OK_OPS]
         ctx.stream("corpus", eq)
@@ -341,7 +352,7 @@ def c15(ctx):
     from . import oracle
     start(ctx)
     fm = tiers(ctx, gen.TRANS_FMTS_Q + [(12, 300)], gen.TRANS_FMTS_T)
-    lines = ["const %s %s" % (c, Sem(E, P, m)) for (E, P) in fm for m in MODES for c in ("pi", "e", "ln2")]
+    lines = corpus_lines("C15", {"const"}) + ["const %s %s" % (c, Sem(E, P, m)) for (E, P) in fm for m in MODES for c in ("pi", "e", "ln2")]
     impl, _ = ctx.stream("constants", lines, nontrivial=lambda t: True, chunk_timeout=1200, per_line_timeout=tiers(ctx, 20, 120))
     for ln, im in zip(lines, impl):
         _, c, st = ln.split()
@@ -356,7 +367,7 @@ def _fn_check(ctx, names, stream):
     from . import oracle
     rng = random.Random(ctx.seed)
     fm = tiers(ctx, gen.TRANS_FMTS_Q, gen.TRANS_FMTS_T)
-    lines = gen.fn_lines(rng, names, fm, tiers(ctx, 6, 40))
+    lines = corpus_lines(ctx.pid, {"fn"}) + gen.fn_lines(rng, names, fm, tiers(ctx, 6, 40))
     impl, _ = ctx.stream(stream, lines, nontrivial=lambda t: t == "n", chunk_timeout=1800, per_line_timeout=tiers(ctx, 20, 120))
     for ln, im in zip(lines, impl):
         _, name, st, tok = ln.split()
@@ -416,7 +427,7 @@ def c18(ctx):
     start(ctx)
     rng = random.Random(ctx.seed)
     fm = tiers(ctx, gen.TRANS_FMTS_Q, gen.TRANS_FMTS_T)
-    lines = gen.pow_lines(rng, fm, tiers(ctx, 8, 50))
+    lines = corpus_lines("C18", {"pow", "powi"}) + gen.pow_lines(rng, fm, tiers(ctx, 8, 50))
     impl, _ = ctx.stream("pow-powi", lines, nontrivial=lambda t: t in ("n", "-"), chunk_timeout=1800, per_line_timeout=tiers(ctx, 20, 120))
     for ln, im in zip(lines, impl):
         t = ln.split()
